@@ -213,11 +213,24 @@ func monC04(op J, res any) (viol []Violation, nontrivial bool) {
 	bad := func(sig, d string) { viol = append(viol, Violation{Sig: "C04/" + sig, Desc: d, Op: op, Res: res}) }
 	// A: no channel report in or after the round in which it retires
 	retired := false
+	lastEnd := map[uint32]uint64{} // end of the predecessor's last (non-specimen) window per channel
+	dropped := map[uint32]bool{}   // channel left the definitions after it had reported (its window chain restarts)
 	for _, o := range jArr(r["A"]) {
 		om := jObj(o)
 		cur := viewOutcome(om["outcome"])
 		if cur == nil {
 			continue
+		}
+		for id := range lastEnd {
+			if _, ok := cur.defs[id]; !ok {
+				dropped[id] = true
+			}
+		}
+		for _, rep := range jArr(om["reports"]) {
+			m := jObj(rep)
+			if jStr(m["kind"]) == "channel" && !jBool(m["specimen"]) {
+				lastEnd[jU32(m["channel"])] = jU64(m["obsTs"])
+			}
 		}
 		if cur.stage == "retired" {
 			retired = true
@@ -235,6 +248,18 @@ func monC04(op J, res any) (viol []Violation, nontrivial bool) {
 	if rr != nil {
 		for _, e := range jArr(rr["va"]) {
 			rrVA[jU32(jget(e, "id"))] = jU64(jget(e, "va"))
+		}
+	}
+	// the retirement report must record, for a channel that reported and stayed defined, where its last window
+	// ended — whichever retired round the report is taken from (version 0 keeps whole seconds)
+	cfgA := jCfg(op["cfgA"])
+	for id, va := range rrVA {
+		end, reported := lastEnd[id]
+		if !reported || dropped[id] {
+			continue
+		}
+		if va != end && !(cfgA.Version == 0 && va == end/1e9*1e9) {
+			bad("retirement-report-not-last-window", fmt.Sprintf("channel %d: the retirement report records validity start %d but the predecessor's last window ended at %d", id, va, end))
 		}
 	}
 	// B: a successor whose Outcome panics can never be promoted (the round is lost for every node alike)
